@@ -3,6 +3,7 @@ from . import hir, flow
 from .core import Out
 from .rules_tables import last
 from .rules_struct import place, calls_in
+from . import roles
 
 
 def method_of(c, e):
@@ -621,10 +622,11 @@ def rule_codec(prog):
 def rule_broker(prog):
     out = Out("BROKER")
     c = prog.lsp
-    b = prog.body("lsp4spl::document::broker")
+    b = roles.broker_fn(prog)
     if b is None:
-        out.missing("document::broker")
+        out.missing("document broker task (async fn taking Receiver<DocumentRequest>)")
         return out
+    notify_ds = set(x["d"] for x in roles.notify_fns(prog))
     docs = None
     for n in hir.nodes(b["body"], "Let"):
         if n["pat"].get("k") == "Binding" and "HashMap" in c.tstr(n["pat"]["bt"]):
@@ -661,7 +663,7 @@ def rule_broker(prog):
     if nkeys < 4:
         out.missing("docs map operations (found %d)" % nkeys)
     # diagnostics only when announced
-    notes = [n for n in hir.nodes(b["body"], "Call") if hir.callee_display(n) == "document::notify"]
+    notes = [n for n in hir.nodes(b["body"], "Call") if hir.callee_display(n) in notify_ds]
     flag_ids = set()
     for pp in b["params"]:
         for bd in hir.pat_bindings(pp):
@@ -686,8 +688,8 @@ def rule_broker(prog):
                 "`notify` must be inside `if <the broker's diagnostics flag>`", ("diag",))
     out.add("document::broker", "diagnostics are published after Open and after Change", len(notes) == 2, c.loc(b["sp"]),
             "found %d notify call(s)" % len(notes), ("diag",))
-    who = [x for x in c.bodies if any(hir.callee_display(n) == "document::notify" for n in hir.nodes(x["body"], "Call"))]
-    out.add("document::notify", "is called only by the broker", [x["d"] for x in who] == ["document::broker"], "", "", ("diag",))
+    who = [x for x in c.bodies if any(hir.callee_display(n) in notify_ds for n in hir.nodes(x["body"], "Call"))]
+    out.add("document::notify", "is called only by the broker", [x["d"] for x in who] == [b["d"]], "", "", ("diag",))
 
     def has(arm, meth):
         return [n for n in hir.nodes(arm["body"], "MethodCall") if n["m"] == meth]
@@ -731,10 +733,11 @@ def _contains(root, n):
 def rule_text_sync(prog):
     out = Out("TEXT-SYNC")
     c = prog.lsp
-    b = prog.body("lsp4spl::document::to_text_changes")
+    b = roles.text_changes_fn(prog)
     if b is None:
-        out.missing("document::to_text_changes")
+        out.missing("fn(Vec<TextDocumentContentChangeEvent>, ..) -> Vec<TextChange>")
         return out
+    cv = roles.conv(prog)
     # NO-DROP: the adaptor chain over `changes` must not be able to discard an element
     dropping = [n for n in hir.nodes(b["body"], "MethodCall") if n["m"] in ("filter_map", "filter", "take_while", "skip", "skip_while", "flat_map", "take", "step_by")]
     bad = None
@@ -753,7 +756,8 @@ def rule_text_sync(prog):
     rr = [n for n in hir.nodes(b["body"], "MethodCall") if n["m"] == "replace_range" and place(n["recv"]) == temp]
     out.add("document::to_text_changes", "each change is applied to the temporary text before the next one is converted",
             temp is not None and len(rr) >= 1, c.loc(b["sp"]), "batched changes are relative to their predecessors", ("batch",))
-    conv = [n for n in hir.nodes(b["body"], "Call") if hir.callee_display(n) in ("document::as_index_range", "document::get_insertion_index")]
+    conv = [n for n in hir.nodes(b["body"], "Call") if hir.callee_display(n) in
+            tuple(cv[k]["d"] for k in ("as_index_range", "get_insertion_index") if k in cv)]
     ok = bool(conv) and all(place(n["args"][1]) == temp for n in conv)
     out.add("document::to_text_changes", "positions are converted against the advanced temporary text", ok, c.loc(conv[0]["sp"]) if conv else c.loc(b["sp"]),
             "", ("batch",))
@@ -792,7 +796,8 @@ def rule_text_sync(prog):
                     r = pth["res"]
                     if r.get("k") == "Local" and r["id"] in outer and "%s#%s" % (r["name"], r["id"]) != temp:
                         # a value computed before the loop: stale once an earlier change of the batch was applied
-                        if any(m_["m"] == "len" or (hir.callee_display(m_) or "").startswith("document::") for m_ in hir.nodes(outer[r["id"]]) if m_.get("k") in ("MethodCall", "Call")):
+                        if any((m_.get("m") == "len") or (hir.callee_display(m_) or "") in set(v["d"] for v in cv.values())
+                               for m_ in hir.nodes(outer[r["id"]]) if m_.get("k") in ("MethodCall", "Call")):
                             bad = pth
                 for mc in hir.nodes(fl["e"], "MethodCall"):
                     if mc["m"] == "len" and "String" in c.tstr(mc["recv"]["t"]) or mc["m"] == "len" and c.tstr(mc["recv"]["t"]).endswith("str"):
@@ -805,15 +810,15 @@ def rule_text_sync(prog):
                 "change of the same notification changed the length", ("batch",))
     # UTF16: column counters in as_position / get_insertion_index (and private helpers they share)
     for fn in ("as_position", "get_insertion_index"):
-        fb = prog.body("lsp4spl::document::" + fn)
+        fb = cv.get(fn)
         if fb is None:
-            out.missing("document::" + fn)
+            out.missing("position conversion function " + fn)
             continue
         bodies_ = [fb]
         for call in hir.nodes(fb["body"]):
             if call.get("k") in ("Call", "MethodCall"):
                 hb = hir.local_callee_body(prog, call)
-                if hb is not None and hb["p"].startswith("lsp4spl::document::") and hb not in bodies_:
+                if hb is not None and hb["_crate"] is c and hb not in bodies_:
                     bodies_.append(hb)
         incs_all = []
         for bb in bodies_:
